@@ -961,6 +961,13 @@ class WorldImpl(World):
         self.env_turn()
         ready = selector._real.select(0)
         ready.sort(key=lambda kv: kv[0].fd)
+        if len(ready) > 1 and 'E' in self.kinds:
+            # epoll reports ready descriptors in ITS order (roughly: order of becoming ready), which need
+            # not be the order in which the works were accepted: canonical (by descriptor) by default,
+            # every permutation (first six) under kind 'E'
+            import itertools
+            perms = list(itertools.islice(itertools.permutations(range(len(ready))), 6))
+            ready = [ready[i] for i in perms[self.choose('E', len(perms), 'ready-event order')]]
         acted = self.activity != a0
         if ready or acted:
             self.idle_turns = 0
